@@ -478,6 +478,7 @@ func FuzzC12Tags(f *testing.F) {
 		}
 		c := c12Lines{Lines: strings.Split(text, "\n"), Markers: markers}
 		if err := ev.Guard(func() error { return oracleC12Lines(c) }); err != nil {
+			ev.FuzzFail("C12", "lines", c, err)
 			t.Fatal(err)
 		}
 	})
